@@ -1,5 +1,5 @@
 /* C18 core / plist: LOPS symbolic append/prepend operations with symbolic data under the failing
- * allocator.  Documented failure result (plist.h): the list is returned unchanged. */
+ * allocator; a failed operation is retried once and must then give the result of the un-failed operation.  Documented failure result (plist.h): the list is returned unchanged. */
 #include "C18_core.h"
 #include <plist.h>
 #ifndef LOPS
@@ -16,21 +16,26 @@ static void compare(PList *l) {
 static void script(void) {
   c18_begin();
   PList *l = NULL;
+  int retried_ok = 0;
   for (int i = 0; i < LOPS; i++) {
     ppointer d = (ppointer) ND_ULL();
-    int f0 = vm_failed, live0 = vm_live;
-    PList *old = l;
-    if (ND_BOOL()) {
-      l = p_list_append(l, d);
-      if (C18_FAILED_SINCE(f0)) VASSERT(l == old, "p_list_append returns the unchanged list on allocation failure");
-      else ref[rn++] = d;
-    } else {
-      l = p_list_prepend(l, d);
-      if (C18_FAILED_SINCE(f0)) VASSERT(l == old, "p_list_prepend returns the unchanged list on allocation failure");
+    int app = ND_BOOL();
+    for (int attempt = 0; attempt < 2; attempt++) {      /* an operation that failed for lack of memory is retried once */
+      int f0 = vm_failed, live0 = vm_live;
+      PList *old = l;
+      l = app ? p_list_append(l, d) : p_list_prepend(l, d);
+      if (C18_FAILED_SINCE(f0)) {
+        VASSERT(l == old, "p_list_append/prepend returns the unchanged list on allocation failure");
+        VASSERT(vm_live == live0, "failed operation leaves nothing allocated");
+        compare(l);          /* elements that existed before are unchanged */
+        continue;
+      }
+      if (app) ref[rn++] = d;
       else { for (int j = LOPS; j > 0; j--) ref[j] = ref[j - 1]; ref[0] = d; rn++; }
+      compare(l);            /* the new element is where the un-failed operation puts it, also when this is the retry */
+      if (attempt == 1) retried_ok = 1;
+      break;
     }
-    compare(l);            /* elements that existed before are unchanged, new one only on success */
-    if (C18_FAILED_SINCE(f0)) VASSERT(vm_live == live0, "failed operation leaves nothing allocated");
   }
   VASSERT(p_list_length(l) == (psize) rn, "list usable after failures: length");
   l = p_list_reverse(l);
@@ -40,6 +45,7 @@ static void script(void) {
   c18_end(LOPS);
   if (rn == LOPS) VWITNESS("all operations succeeded");
 #ifndef NOFAIL
-  if (rn == 0 && vm_failed == LOPS) VWITNESS("all operations failed");
+  if (rn == 0 && vm_failed == 2 * LOPS) VWITNESS("all operations and their retries failed");
+  if (retried_ok && rn == LOPS) VWITNESS("a failed operation succeeded when retried; the list is complete");
 #endif
 }
